@@ -395,18 +395,20 @@ Lemma del_loop_JC b freeBits : forall l w,
   JC p None w' /\ cache (getp w' p) = [] /\
   (forall y, y <> b -> In y (own (getp w p)) -> In y (own (getp w' p))) /\
   (forall bk, In bk (live (getp w' p)) -> In bk (live (getp w p))) /\
-  (forall bk, In bk (live (getp w p)) -> fst bk <> b -> In bk (live (getp w' p))).
+  (forall bk, In bk (live (getp w p)) -> fst bk <> b -> In bk (live (getp w' p))) /\
+  (NoDup (returned w) -> NoDup (returned w')).
 Proof.
   induction l as [|i t IH]; intros w ND (Jw & Cw) Ec Hl; cbv zeta.
-  - simpl. split; [split; assumption|]. split; [exact Ec|]. split; [auto|]. split; auto.
+  - simpl. split; [split; assumption|]. split; [exact Ec|]. split; [auto|]. split; [auto|]. split; auto.
   - cbn [foldl]. inversion ND as [|? ? Ni NDt]; subst.
     assert (let w1 := del_step b freeBits w i in
             JC p None w1 /\ cache (getp w1 p) = [] /\
             (forall y, y <> b -> In y (own (getp w p)) -> In y (own (getp w1 p))) /\
             (forall bk, In bk (live (getp w1 p)) -> In bk (live (getp w p))) /\
-            (forall bk, In bk (live (getp w p)) -> bk <> (b, i) -> In bk (live (getp w1 p)))) as S.
-    { cbv zeta. unfold del_step. destruct (memz i freeBits) eqn:M; [split; [split; assumption|]; split; [exact Ec|]; split; [auto|]; split; auto|].
-      destruct (f (b, i)); [|split; [split; assumption|]; split; [exact Ec|]; split; [auto|]; split; auto].
+            (forall bk, In bk (live (getp w p)) -> bk <> (b, i) -> In bk (live (getp w1 p))) /\
+            (NoDup (returned w) -> NoDup (returned w1))) as S.
+    { cbv zeta. unfold del_step. destruct (memz i freeBits) eqn:M; [split; [split; assumption|]; split; [exact Ec|]; split; [auto|]; split; [auto|]; split; auto|].
+      destruct (f (b, i)); [|split; [split; assumption|]; split; [exact Ec|]; split; [auto|]; split; [auto|]; split; auto].
       assert (In (b, i) (live (getp w p))) as Hin.
       { apply Hl; [left; reflexivity|]. intro K. apply memz_In in K. congruence. }
       pose proof (remove_live_J C p (b, i) w Jw Hin) as J1. pose proof (remove_live_C p (b, i) w Cw) as C1.
@@ -420,13 +422,15 @@ Proof.
       split; [rewrite (cache_of_caches _ _ p (PoolConcProofs.pvDeleteBlock_caches C w0 p (b, i))); unfold w0, remove_live; rewrite getp_setp_eq; exact Ec|].
       split; [intros y N Hy; apply F4; [exact N|rewrite O0; exact Hy]|].
       split; [intros bk Hk; rewrite Lv, L0 in Hk; apply removeb_In in Hk; tauto|].
-      intros bk Hk N. rewrite Lv, L0. apply removeb_In. tauto. }
-    cbv zeta in S. destruct S as (J1 & E1 & O1 & L1 & K1).
-    destruct (IH (del_step b freeBits w i) NDt J1 E1) as (J2 & E2 & O2 & L2 & K2).
+      split; [intros bk Hk N; rewrite Lv, L0; apply removeb_In; tauto|].
+      intros NDr. apply (pvDeleteBlock_NR C p w0 (b, i) J1). unfold w0, remove_live. rewrite returned_setp. exact NDr. }
+    cbv zeta in S. destruct S as (J1 & E1 & O1 & L1 & K1 & R1).
+    destruct (IH (del_step b freeBits w i) NDt J1 E1) as (J2 & E2 & O2 & L2 & K2 & R2).
     { intros i' Hi' Nf. apply K1; [apply Hl; [right; exact Hi'|exact Nf]|]. intro E. inversion E; subst. contradiction. }
     cbv zeta in *. split; [exact J2|]. split; [exact E2|]. split; [intros y N Hy; apply O2; [exact N|apply O1; assumption]|].
     split; [intros bk Hk; apply L1; apply L2; exact Hk|].
-    intros bk Hk N. apply K2; [|exact N]. apply K1; [exact Hk|]. intro E. apply N. rewrite E. reflexivity.
+    split; [intros bk Hk N; apply K2; [|exact N]; apply K1; [exact Hk|]; intro E; apply N; rewrite E; reflexivity|].
+    intros NDr. apply R2. apply R1. exact NDr.
 Qed.
 
 Lemma pvDeleteBlocks_is_loop w b : pvDeleteBlocks C f w p b = foldl (del_step b (chain_of w b)) (upto (Z.to_nat C) 0) w.
@@ -439,7 +443,8 @@ Lemma pvDeleteBlocks_JC w b :
   JC p None w' /\ cache (getp w' p) = [] /\
   (forall y, y <> b -> In y (own (getp w p)) -> In y (own (getp w' p))) /\
   (forall bk, In bk (live (getp w' p)) -> In bk (live (getp w p))) /\
-  (forall bk, In bk (live (getp w p)) -> fst bk <> b -> In bk (live (getp w' p))).
+  (forall bk, In bk (live (getp w p)) -> fst bk <> b -> In bk (live (getp w' p))) /\
+  (NoDup (returned w) -> NoDup (returned w')).
 Proof.
   intros (Jw & Cw) Ec Ob. rewrite pvDeleteBlocks_is_loop. apply del_loop_JC; [apply PoolConcProofs.upto_NoDup|split; assumption|exact Ec|].
   intros i Hi Nf. apply PoolConcProofs.upto_In in Hi.
@@ -459,6 +464,14 @@ Proof.
   { intros y Hy. apply O1; [intro; subst; contradiction|apply Ow; right; exact Hy]. }
   destruct (IH (pvDeleteBlocks C f w p b) NDt Ow' J1 E1) as (J2 & E2 & L2).
   cbv zeta in *. split; [exact J2|]. split; [exact E2|]. intros bk Hk. apply L1. apply L2. exact Hk.
+Qed.
+Lemma del_buffers_NR : forall L w,
+  NoDup L -> (forall b, In b L -> In b (own (getp w p))) -> JC p None w -> cache (getp w p) = [] ->
+  NoDup (returned w) -> NoDup (returned (foldl (fun w b => pvDeleteBlocks C f w p b) L w)).
+Proof.
+  induction L as [|b t IH]; intros w ND Ow Jw Ec NDr; [exact NDr|]. cbn [foldl]. inversion ND as [|? ? Nb NDt]; subst.
+  destruct (pvDeleteBlocks_JC w b Jw Ec (Ow b (or_introl eq_refl))) as (J1 & E1 & O1 & _ & _ & R1). cbv zeta in *.
+  apply IH; auto. intros y Hy. apply O1; [intro; subst; contradiction|apply Ow; right; exact Hy].
 Qed.
 End DelIf.
 
@@ -720,6 +733,41 @@ Proof.
   cbv zeta. destruct (JC_all_histories ops) as (Jw & Cw & Nw). intros bk.
   apply (DeallocateIf_JC p f (frun ops)); [|apply (proj1 (JC_any p _)); split; assumption].
   intros U. specialize (Nw U). unfold PoolConcProofs.caches in Nw. apply pair_equal_spec in Nw. destruct Nw. destruct p; assumption.
+Qed.
+
+
+Lemma DeallocateIf_NR p f w :
+  (uc = false -> cache (getp w p) = []) -> JC p None w -> NoDup (returned w) -> NoDup (returned (DeallocateIf C uc w p f)).
+Proof.
+  intros Hnc Jw NDr. unfold DeallocateIf. cbv zeta.
+  set (w1 := if uc then flush C w p else w).
+  assert (JC p None w1 /\ cache (getp w1 p) = [] /\ NoDup (returned w1)) as (J1 & E1 & R1).
+  { unfold w1. destruct uc; [|split; [exact Jw|split; [apply Hnc; reflexivity|exact NDr]]].
+    split; [apply flush_JC; exact Jw|]. split; [apply PoolConcProofs.flush_cache_empty|].
+    unfold flush. apply flush_loop_NR; [exact HC|exact (proj1 Jw)|reflexivity|exact NDr]. }
+  clearbody w1. destruct (acount (getp w1 p) =? 0); [exact R1|].
+  pose proof J1 as ((_ & (P1 & _) & _) & _). unfold own in P1. apply NoDup_app_iff in P1. destruct P1 as (NDf & NDrr & _).
+  assert (forall b, In b (lfree (getp w1 p)) -> In b (own (getp w1 p))) as Ow1 by (intros b Hb; unfold own; apply in_or_app; right; exact Hb).
+  destruct (del_buffers_JC f p (lfree (getp w1 p)) w1 NDrr Ow1 J1 E1) as (J2 & E2 & _).
+  pose proof (del_buffers_NR f p (lfree (getp w1 p)) w1 NDrr Ow1 J1 E1 R1) as R2. cbv zeta in *.
+  set (w2 := foldl (fun w b => pvDeleteBlocks C f w p b) (lfree (getp w1 p)) w1) in *.
+  pose proof J2 as ((_ & (Q1 & _) & _) & _). unfold own in Q1. apply NoDup_app_iff in Q1. destruct Q1 as (NDf2 & _ & _).
+  apply del_buffers_NR; auto.
+  - rewrite rev0_spec, app_nil_r. apply NoDup_rev. exact NDf2.
+  - intros b Hb. rewrite rev0_spec, app_nil_r, <- in_rev in Hb. unfold own. apply in_or_app. left. exact Hb.
+Qed.
+
+(* every buffer is returned at most once - over the FULL alphabet, DeallocateIf included *)
+Theorem returned_once_full ops : NoDup (returned (frun ops)).
+Proof.
+  assert (forall l w, JC false None w /\ nocache uc w /\ NoDup (returned w) -> NoDup (returned (foldl fstep l w))) as K.
+  { induction l as [|o t IH]; intros w (Jw & Nw & Rw); simpl; [exact Rw|]. apply IH.
+    split; [apply fstep_JC; assumption|]. split; [apply fstep_nocache; assumption|].
+    destruct o as [o|p f]; simpl.
+    - apply gstep_NR; [exact HC|exact (proj1 Jw)|exact Rw].
+    - apply DeallocateIf_NR; [|apply (proj1 (JC_any p _)); exact Jw|exact Rw].
+      intros U. specialize (Nw U). unfold PoolConcProofs.caches in Nw. apply pair_equal_spec in Nw. destruct Nw. destruct p; assumption. }
+  unfold frun. apply K. split; [apply JC_empty|]. split; [intros _; reflexivity|constructor].
 Qed.
 
 Lemma ghost_steps q bk w :
